@@ -363,6 +363,13 @@ def _local(frame, event, arg):
 def run_in_child(bodies: list[t.Callable[[], t.Any]], schedule: dict[int, int], first: int, counters: bool = True):
     """Executed in the forked child. Returns a picklable result dict."""
     global SCHED
+    for b in bodies:
+        # harnesses about call-time state start with their dialects loaded (sequentially, before any thread exists): their
+        # scheduling points are then the call-time ones only
+        for name in getattr(b, "preload", ()):
+            from sqlglot.dialects.dialect import Dialect as _D
+
+            _D.get_or_raise(name or None)
     import sqlglot  # noqa  (already imported in the parent)
     import sqlglot.dialects as sd
     import sqlglot.optimizer as so
